@@ -1,1 +1,10 @@
-// harnesses for vu_connection
+// Child module of vhost::vhost_user::connection.
+use super::*;
+use crate::vhost_user::verif::ghost as g;
+use crate::vhost_user::verif::spec;
+
+fn ep() -> std::mem::ManuallyDrop<Endpoint<VhostUserMsgHeader<FrontendReq>>> {
+    // SAFETY: descriptor 5 is never used for real I/O (all socket calls are stubbed)
+    std::mem::ManuallyDrop::new(Endpoint::from_stream(unsafe { UnixStream::from_raw_fd(5) }))
+}
+
